@@ -459,6 +459,7 @@ func gen(a vh.Args) {
 		}
 		w.Printf("%s\n", c.String())
 	}
+	genStreamCases(r, w, a.Tier)
 	for i := 0; i < nbig; i++ {
 		sc := genReceiverCase(r, fmt.Sprintf("b%d", i), true, dist)
 		w.Printf("%s\n", sc.c.String())
